@@ -143,7 +143,7 @@ Proof.
 Qed.
 Lemma cx_consistent : consistent zF zJ cx_tan cx_dp cx_ops0 cx_env.
 Proof.
-  intros k oi H. nth_cases k H ltac:(cbn [o_op zF core_family f_inner o_rets]; try (split; reflexivity)).
+  intros k oi H. nth_cases k H ltac:(cbn [o_op zF core_family desc_family f_inner o_rets]; try (split; reflexivity)).
   - intros ys [= <-]. exists 0%N, []. split; [constructor|split; reflexivity].
   - intros ys [= <-]. exists 0%N, [[2; -1; 3; 5]; cx_x]%Z. split; [repeat constructor|split; vm_compute; reflexivity].
   - intros ys [= <-]. exists 0%N, [[2; -2; 9; 20; 10; -6; 21; 40]; [2; -1; 3; 5]]%Z. split; [repeat constructor|split; vm_compute; reflexivity].
@@ -264,7 +264,7 @@ Qed.
 Lemma cy_consistent : consistent zF zJ cy_tan cy_dp cy_ops0 cy_env.
 Proof.
   intros k oi H.
-  nth_cases k H ltac:(cbn [o_op zF core_family f_inner o_rets]; try (split; reflexivity);
+  nth_cases k H ltac:(cbn [o_op zF core_family desc_family f_inner o_rets]; try (split; reflexivity);
     (intros ys Hys; cbn in Hys; injection Hys as <-;
      eexists 0%N, _; split; [repeat (constructor; [lazy; reflexivity|]); constructor|split; vm_compute; reflexivity])).
 Qed.
